@@ -21,6 +21,9 @@ package main
 //   case <n> close
 //   impl <n> <result>                      setup:<resumed> wait:<old> errclosing errkilltimeout ok queuefull blocked msg:<msg> err
 //   snap <n> <state tokens> | none         see snapText
+//   will <n>                               case <n> is a Publish by a connection that was closing when the call was made: the only
+//                                          message such a connection ever publishes is its will (broker/client.go cleanup).  Ignored
+//                                          by the model runner; checks/C12.py reads it to pick the steps that are will publications
 
 import (
 	"fmt"
@@ -36,7 +39,7 @@ import (
 	"verifh/hx"
 )
 
-func main() { hx.Main(map[string]func(*hx.Ctx){"mb": runMB, "mbbox": runBox, "mbconc": runConc}) }
+func main() { hx.Main(map[string]func(*hx.Ctx){"mb": runMB, "mbbox": runBox, "mbconc": runConc, "mbgate": runGate}) }
 
 var filterU = []string{"a", "b", "a/b", "a/+", "a/#", "#", "+", "+/b", "/a", "a/"}
 var nameU = []string{"a", "b", "a/b", "/a", "a/", "a/b/c", "b/b"}
@@ -572,6 +575,9 @@ func (w *world) opPub(n int, m packet.Message) {
 	}
 	cl := w.ensureBare(n, "")
 	op := fmt.Sprintf("pub %d %s", n, hx.MsgText(&m))
+	if cl.setup && !cl.term && cl.c.VerifIsClosing() {
+		defer w.markWill(w.caseN + 1)
+	}
 	wouldErr, blockers := w.predict(cl.c, &m)
 	if wouldErr {
 		// the pre-check refuses the message before anything can wait
@@ -605,11 +611,22 @@ func (w *world) opPub(n int, m packet.Message) {
 	}
 }
 
+// markWill: see the head of the file (`will <n>`); called after the case was emitted
+func (w *world) markWill(n int) {
+	if w.caseN >= n {
+		w.c.Emit("will %d", n)
+		w.c.Stat("will_steps", 1)
+	}
+}
+
 func (w *world) opResume() {
 	if w.blk == nil {
 		return
 	}
 	op := fmt.Sprintf("resume %d %s", w.blkCli, hx.MsgText(&w.blkMsg))
+	if cl := w.client(w.blkCli); cl.setup && !cl.term && cl.c != nil && cl.c.VerifIsClosing() {
+		defer w.markWill(w.caseN + 1)
+	}
 	select {
 	case err := <-w.blk:
 		w.blk = nil
@@ -973,6 +990,89 @@ func famOwnFull(c *hx.Ctx) {
 						ops = append(ops, "deq 1", "deq 4", "deq 2")
 						runHist(c, hist{cap: cap, ops: ops}, "ownfull")
 					}
+				}
+			}
+		}
+	}
+}
+
+// F1e: the backend shuts down (Close) while accepted connections are live: each of them is closed and publishes its will from its
+// cleanup, i.e. AFTER the backend has started closing, and before its Terminate.  Will owners with a stored session subscribed to
+// the will topic / not subscribed / a temporary session; will QoS 0/1/2, retained, retained with an empty payload (clears);
+// observers: an offline persistent session, an online persistent one and an online temporary one (both closed by the shutdown too,
+// publishing wills of their own, the second after the first will owner is gone).
+func famCloseWill(c *hx.Ctx) {
+	x, y, z := hxs("x"), hxs("y"), hxs("z")
+	k := 0
+	for _, q := range []int{0, 1, 2} {
+		for _, kind := range []string{"stored-own", "stored", "temp-own", "clean-own"} {
+			for _, wv := range []string{"plain", "retained", "clearing"} {
+				k++
+				ops := []string{
+					"setup 5 " + y + " 0 0", fmt.Sprintf("sub 5 %s,%d", hxs("#"), 1+k%2), "term 5", "closed 5",
+					"setup 2 - 1 0", fmt.Sprintf("sub 2 %s,2", hxs("a/#")),
+					"setup 3 " + z + " 0 0", fmt.Sprintf("sub 3 %s,%d;%s,0", hxs("+/b"), 1+(k+1)%2, hxs("b")),
+				}
+				switch kind {
+				case "stored-own":
+					ops = append(ops, "setup 1 "+x+" 0 0", fmt.Sprintf("sub 1 %s,%d", hxs("a/+"), (k+q)%3))
+				case "stored":
+					ops = append(ops, "setup 1 "+x+" 0 0", fmt.Sprintf("sub 1 %s,1", hxs("b")))
+				case "temp-own":
+					ops = append(ops, "setup 1 - 1 0", fmt.Sprintf("sub 1 %s,%d", hxs("#"), (k+q)%3))
+				case "clean-own":
+					ops = append(ops, "setup 1 "+x+" 1 0", fmt.Sprintf("sub 1 %s,%d", hxs("a/b"), (k+q)%3))
+				}
+				ops = append(ops, fmt.Sprintf("pub 9 %s,%s,1,1", hxs("a/b"), payload()), "deq 1", "deq 2", "deq 3", "close")
+				will := fmt.Sprintf("%s,%s,%d,0", hxs("a/b"), payload(), q)
+				switch wv {
+				case "retained":
+					will = fmt.Sprintf("%s,%s,%d,1", hxs("a/b"), payload(), q)
+				case "clearing":
+					will = fmt.Sprintf("%s,-,%d,1", hxs("a/b"), q)
+				}
+				ops = append(ops,
+					"pub 1 "+will, // the will of 1, the backend closing
+					fmt.Sprintf("pub 3 %s,%s,%d,%d", hxs("b"), payload(), (q+1)%3, k%2), // the will of 3
+					"term 1", "closed 1",
+					fmt.Sprintf("pub 2 %s,%s,%d,1", hxs("a/b"), payload(), (q+2)%3), // the will of 2, after 1 is gone
+					"term 2", "closed 2", "term 3", "closed 3",
+					"setup 6 "+x+" 0 0", // refused: nobody can resume any more; the queues above are what is left
+				)
+				runHist(c, hist{cap: 4, ops: ops}, "closewill")
+			}
+		}
+	}
+}
+
+// F1f: the will of a connection whose own PERSISTENT session is subscribed to the will topic, with room in its queue (0 or 1 message
+// waiting): the session outlives the connection, so the will is queued for it and the connection that resumes the session dequeues
+// it.  Routes the model has: displacement by a newer connection with the id (unclean: resumes; clean: discards), backend shutdown.
+func famOwnWill(c *hx.Ctx) {
+	x := hxs("x")
+	k := 0
+	for _, q := range []int{0, 1, 2} {
+		for _, route := range []string{"takeover", "takeover-clean", "close"} {
+			for _, waiting := range []int{0, 1} {
+				for _, retain := range []int{0, 1} {
+					k++
+					ops := []string{
+						"setup 1 " + x + " 0 0", fmt.Sprintf("sub 1 %s,%d;%s,%d", hxs("a/#"), k%3, hxs("b"), (k+1)%3),
+						"setup 2 - 1 0", "sub 2 " + hxs("#") + ",1",
+					}
+					for i := 0; i < waiting; i++ {
+						ops = append(ops, fmt.Sprintf("pub 9 %s,%s,%d,0", hxs("a/b"), payload(), q), "deq 2")
+					}
+					will := fmt.Sprintf("pub 1 %s,%s,%d,%d", hxs("a/b"), payload(), q, retain)
+					switch route {
+					case "takeover":
+						ops = append(ops, "setup 4 "+x+" 0 0", will, "finish", "deq 4", "deq 4", "deq 2", "sub 4 "+hxs("a/b")+",1", "deq 4")
+					case "takeover-clean":
+						ops = append(ops, "setup 4 "+x+" 1 0", will, "finish", "deq 4", "deq 2", "sub 4 "+hxs("a/b")+",1", "deq 4")
+					case "close":
+						ops = append(ops, "close", will, "term 1", "closed 1", "deq 2")
+					}
+					runHist(c, hist{cap: 3, ops: ops}, "ownwill")
 				}
 			}
 		}
@@ -1399,6 +1499,8 @@ func runMB(c *hx.Ctx) {
 	run("targets", func() { famTargets(c) })
 	run("ownfull", func() { famOwnFull(c) })
 	run("failedsetup", func() { famFailedSetup(c) })
+	run("closewill", func() { famCloseWill(c) })
+	run("ownwill", func() { famOwnWill(c) })
 	run("sizes", func() { famSizes(c) })
 	run("retained", func() { famRetained(c) })
 	run("samepayload", func() { famSamePayload(c) })
